@@ -3302,6 +3302,13 @@ class quantized_hswish(quantized_bits):  # pylint: disable=invalid-name
     """Add relu_shift and relu_upper_bound to the config file."""
 
     base_config = super(quantized_hswish, self).get_config()
+    # keep only the options that quantized_hswish.__init__ accepts, so that
+    # from_config(get_config()) can rebuild the quantizer.
+    base_config = {
+        key: base_config[key] for key in (
+            "bits", "integer", "symmetric", "alpha", "use_stochastic_rounding",
+            "scale_axis", "qnoise_factor", "use_variables")
+    }
 
     config = {
         "relu_shift": self.relu_shift,
